@@ -5,8 +5,8 @@ bytes (the harness maps the printed keys through sha256 before comparing with th
 
   `new`                               empty database, empty manager                         → `ok`
   `add <fields>`                      build a transfer, `manager.add(t)`                    → `ok <#transfers> <#added events>`
-  `mut <i> <fields>`                  overwrite the non-identity attributes of transfer i  → `ok` | `bad-index`
-  `rm <i>`                            `manager.remove(transfers[i])`                        → `ok <#transfers>` | `bad-index`
+  `mut <fields>`                      overwrite the non-identity attributes of the transfer with this identity → `ok` | `not-found`
+  `rm <u> <p> <d>`                    `manager.remove(t)` of the transfer with this identity → `ok <#transfers>` | `not-found`
   `store`                             `store_data()`                                        → `keys <hex>,<hex>,…`
   `legacy <u> <p> <d> <a> <o> <k> <s>` rewrite the stored entry of identity (u,p,d): drop `abort_reason` (a=1),
                                       add `_offset` (o=1), move it to the pre-fix key (k=1), state := UNSET (s=1)
@@ -134,24 +134,25 @@ def handle (s : S) (line : String) : S × String :=
       let m := s.mgr.add t
       ({ s with mgr := m }, s!"ok {m.transfers.length} {m.addedEvents}")
     | none => (s, "bad-op")
-  | "mut" :: i :: toks =>
-    match i.toNat?, parseFields toks >>= parseTransfer with
-    | some i, some t =>
-      match s.mgr.transfers[i]? with
-      | some old =>
+  | "mut" :: toks =>
+    match parseFields toks >>= parseTransfer with
+    | some t =>
+      match s.mgr.transfers.findIdx? (fun q => ident q = ident t) with
+      | some i =>
         -- identity and listeners stay; every other attribute is overwritten
-        let t' := { t with user := old.user, path := old.path, dir := old.dir, listeners := old.listeners }
-        ({ s with mgr := { s.mgr with transfers := setAt s.mgr.transfers i t' } }, "ok")
-      | none => (s, "bad-index")
-    | _, _ => (s, "bad-op")
-  | ["rm", i] =>
-    match i.toNat? with
-    | some i =>
-      if i < s.mgr.transfers.length then
+        let ls := (s.mgr.transfers[i]?.map (·.listeners)).getD []
+        ({ s with mgr := { s.mgr with transfers := setAt s.mgr.transfers i { t with listeners := ls } } }, "ok")
+      | none => (s, "not-found")
+    | none => (s, "bad-op")
+  | ["rm", u, p, d] =>
+    match parseStr u, parseStr p, parseDir d with
+    | some u, some p, some d =>
+      match s.mgr.transfers.findIdx? (fun q => ident q = (u, p, d)) with
+      | some i =>
         let m := { s.mgr with transfers := s.mgr.transfers.eraseIdx i, cycleRequested := true }
         ({ s with mgr := m }, s!"ok {m.transfers.length}")
-      else (s, "bad-index")
-    | none => (s, "bad-op")
+      | none => (s, "not-found")
+    | _, _, _ => (s, "bad-op")
   | ["store"] =>
     let db := write id s.db s.mgr.transfers
     ({ s with db := db }, "keys " ++ ",".intercalate (db.map fun e => hexOfBytes e.1))
